@@ -4,7 +4,7 @@
    their mathematical value.  F: where the code refutes the property. *)
 From Coq Require Import ZArith List Bool Lia.
 From ZV Require Import Model.Regex Generated.LexTables Model.Lexer Model.Reader Model.Printer
-  Proofs.LexerProofs Proofs.PrinterLex.
+  Proofs.LexerProofs Proofs.PrinterLex Proofs.RegexSem Proofs.Classify.
 Import ListNotations.
 Open Scope Z_scope.
 
@@ -276,6 +276,197 @@ Qed.
 
 End WithIsPrint.
 
+(* ======== B2: floats ======== *)
+
+Lemma byte_len_nonneg_l : forall s, 0 <= byte_len s.
+Proof. induction s as [|c s IH]; simpl; [lia|]. unfold utf8_len. destruct (c <? 128), (c <? 2048), (c <? 65536); lia. Qed.
+
+
+Lemma dig__plain : forall c, dig_ c -> plain c.
+Proof. intros c [H|H]; [apply digit_plain; assumption|subst; reflexivity]. Qed.
+Lemma Forall_dig__plain : forall w, Forall dig_ w -> Forall plain w.
+Proof. intros w F. eapply Forall_impl; [|exact F]. exact dig__plain. Qed.
+
+(* the beginning of a number: optional minus, a digit, plain runes *)
+Lemma atom_prefix : forall sg c m s t p, sign_ok sg -> digit c -> Forall plain m -> can_start p ->
+  view s LNormal [] t p ->
+  exists s1, lex_all s (sg ++ c :: m) = LOk s1 /\ view s1 LNormal (sg ++ c :: m) t (last m c).
+Proof.
+  intros sg c m s t p Hs Hc Hm Hcan V. destruct Hs as [Hs|Hs]; subst sg.
+  - destruct (run_plain (c :: m) s [] t p) as [s1 [E1 V1]]; [constructor; [apply digit_plain; assumption|assumption]|exact V|].
+    exists s1. split; [exact E1|]. cbn [app] in *. rewrite (last_cons_dflt m c p). exact V1.
+  - destruct (step_minus s t p V) as [s1 [E1 [V1 [P1 P2]]]].
+    destruct (step_minus_digit s1 t c p V1 P1 P2 Hcan (dec_yes_neg c [] Hc (Forall_nil _))) as [s2 [E2 V2]].
+    destruct (run_plain m s2 [45; c] t c Hm V2) as [s3 [E3 V3]].
+    exists s3. split; [|exact V3]. cbn [app lex_all]. rewrite E1, E2. exact E3.
+Qed.
+
+Lemma byte_len_pos2 : forall a b l, 1 <? byte_len (a :: b :: l) = true.
+Proof.
+  intros a b l. apply Z.ltb_lt. cbn [byte_len]. pose proof (byte_len_nonneg_l l) as H.
+  unfold utf8_len. destruct (a <? 128), (a <? 2048), (a <? 65536), (b <? 128), (b <? 2048), (b <? 65536); lia.
+Qed.
+
+Theorem float_A_lexes : forall sg c ip fp, sign_ok sg -> digit c -> Forall dig_ ip -> Forall dig_ fp ->
+  lexes_to (formA sg c ip fp) [mkTok TFloat (formA sg c ip fp)].
+Proof.
+  intros sg c ip fp Hs Hc Hi Hf s t p d Hd Hcan V. unfold formA.
+  assert (Forall plain (ip ++ 46 :: fp)) as Hm
+    by (apply Forall_app; split; [apply Forall_dig__plain; assumption|constructor; [reflexivity|apply Forall_dig__plain; assumption]]).
+  destruct (atom_prefix sg c (ip ++ 46 :: fp) s t p Hs Hc Hm Hcan V) as [s1 [E1 V1]].
+  assert (sg ++ c :: ip ++ 46 :: fp <> []) as Hne by (destruct sg; discriminate).
+  destruct (step_delim s1 _ t _ d _ Hd Hne (classify_float_A sg c ip fp Hs Hc Hi Hf) V1) as [s2 [E2 V2]].
+  exists s2. split; [|exact V2]. rewrite lex_all_app, E1. cbn [lex_all]. rewrite E2. reflexivity.
+Qed.
+
+Lemma last_snoc : forall (l : list Z) e d, last (l ++ [e]) d = e.
+Proof. intros. apply last_last. Qed.
+
+Theorem float_C_lexes : forall sg c ip fr e esg x xp, sign_ok sg -> digit c -> Forall dig_ ip -> frac_ok fr ->
+  (e = 101 \/ e = 69) -> esign_ok esg -> digit x -> Forall dig_ xp ->
+  lexes_to (formC sg c ip fr e esg x xp) [mkTok TFloat (formC sg c ip fr e esg x xp)].
+Proof.
+  intros sg c ip fr e esg x xp Hs Hc Hi Hfr He Hes Hx Hxp s t p d Hd Hcan V.
+  assert (plain e) as Hpe by (destruct He; subst; reflexivity).
+  assert (Forall plain fr) as Hpfr
+    by (destruct Hfr as [H|[fp [H F]]]; subst; [constructor|constructor; [reflexivity|apply Forall_dig__plain; assumption]]).
+  assert (Forall plain (ip ++ fr ++ [e])) as Hm
+    by (apply Forall_app; split; [apply Forall_dig__plain; assumption|apply Forall_app; split; [assumption|constructor; [assumption|constructor]]]).
+  destruct (atom_prefix sg c (ip ++ fr ++ [e]) s t p Hs Hc Hm Hcan V) as [s1 [E1 V1]].
+  replace (last (ip ++ fr ++ [e]) c) with e in V1 by (rewrite app_assoc, last_snoc; reflexivity).
+  set (B := sg ++ c :: ip ++ fr ++ [e]) in *.
+  (* the optional sign of the exponent *)
+  assert (exists s2, lex_all s1 esg = LOk s2 /\ view s2 LNormal (B ++ esg) t (last esg e)) as [s2 [E2 V2]].
+  { destruct Hes as [H|H]; [subst esg; exists s1; split; [reflexivity|rewrite app_nil_r; exact V1]|].
+    assert (sci_prefix_ok B = true) as Hsci.
+    { unfold sci_prefix_ok, B.
+      replace (sg ++ c :: ip ++ fr ++ [e]) with ((sg ++ c :: ip ++ fr) ++ [e]) by (rewrite <- !app_assoc; cbn [app]; rewrite <- !app_assoc; reflexivity).
+      rewrite removelast_last. unfold last_rune. rewrite last_snoc.
+      assert (1 <? byte_len ((sg ++ c :: ip ++ fr) ++ [e]) = true) as Hb.
+      { destruct sg as [|a sg']; cbn [app].
+        - destruct (ip ++ fr) eqn:Eq; cbn [app]; apply byte_len_pos2.
+        - destruct sg'; cbn [app]; apply byte_len_pos2. }
+      rewrite Hb. replace (e <? 128) with true by (destruct He; subst; reflexivity). cbn [andb].
+      destruct Hfr as [H0|[fp [H0 F]]]; subst fr.
+      - rewrite app_nil_r. rewrite (dec_U sg c ip Hs Hc Hi). reflexivity.
+      - change (sg ++ c :: ip ++ 46 :: fp) with (formA sg c ip fp). rewrite (float_A sg c ip fp Hs Hc Hi F). apply orb_true_r. }
+    destruct H as [H|H]; subst esg.
+    - destruct (step_exp_sign s1 B t 43 e (or_introl eq_refl) He Hsci V1) as [s2 [E2 V2]].
+      exists s2. split; [cbn [lex_all]; rewrite E2; reflexivity|exact V2].
+    - destruct (step_exp_sign s1 B t 45 e (or_intror eq_refl) He Hsci V1) as [s2 [E2 V2]].
+      exists s2. split; [cbn [lex_all]; rewrite E2; reflexivity|exact V2]. }
+  destruct (run_plain (x :: xp) s2 (B ++ esg) t (last esg e)) as [s3 [E3 V3]];
+    [constructor; [apply digit_plain; assumption|apply Forall_dig__plain; assumption]|exact V2|].
+  assert ((B ++ esg) ++ x :: xp = formC sg c ip fr e esg x xp) as EB.
+  { unfold B, formC. rewrite <- !app_assoc. cbn [app]. rewrite <- !app_assoc. reflexivity. }
+  rewrite EB in V3.
+  assert (formC sg c ip fr e esg x xp <> []) as Hne by (unfold formC; destruct sg; discriminate).
+  destruct (step_delim s3 _ t _ d _ Hd Hne (classify_float_C sg c ip fr e esg x xp Hs Hc Hi Hfr He Hes Hx Hxp) V3) as [s4 [E4 V4]].
+  exists s4. split; [|exact V4].
+  replace (formC sg c ip fr e esg x xp ++ [d]) with (B ++ (esg ++ ((x :: xp) ++ [d])))
+    by (rewrite <- EB; rewrite <- !app_assoc; reflexivity).
+  rewrite lex_all_app, E1, lex_all_app, E2, lex_all_app, E3. cbn [lex_all]. rewrite E4. reflexivity.
+Qed.
+
+(* ---- what the float printer emits ---- *)
+
+(* the formatter contract on the digit token: digits where digits belong, an exponent exactly in the 'e' format *)
+Definition ftok_ok (t : ftok) (sci : bool) : Prop :=
+  (exists c ip, f_int t = c :: ip /\ digit c /\ Forall digit ip) /\ Forall digit (f_frac t) /\
+  (if sci then exists en x xp, f_exp t = Some (en, x :: xp) /\ digit x /\ Forall digit xp else f_exp t = None).
+
+Lemma Forall_digit_dig_ : forall w, Forall digit w -> Forall dig_ w.
+Proof. intros w F. eapply Forall_impl; [|exact F]. intros a H; left; exact H. Qed.
+
+Definition fsign (t : ftok) : list Z := if f_neg t then [45] else [].
+Lemma fsign_ok : forall t, sign_ok (fsign t).
+Proof. intros t. unfold fsign, sign_ok. destruct (f_neg t); auto. Qed.
+
+Lemma float_text_form : forall t sci, ftok_ok t sci ->
+  exists c ip, f_int t = c :: ip /\ digit c /\ Forall dig_ ip /\
+  (if sci then exists en x xp, f_exp t = Some (en, x :: xp) /\ digit x /\ Forall dig_ xp /\
+                 float_text (FFin t) sci =
+                 formC (fsign t) c ip (match f_frac t with [] => [] | fr => 46 :: fr end) 101 [if en then 45 else 43] x xp
+   else float_text (FFin t) sci = formA (fsign t) c ip (match f_frac t with [] => [48] | fr => fr end)).
+Proof.
+  intros t sci [[c [ip [Ei [Hc Hi]]]] [Hf He]]. exists c, ip. split; [exact Ei|]. split; [exact Hc|].
+  split; [apply Forall_digit_dig_; exact Hi|]. destruct sci.
+  - destruct He as [en [x [xp [Ee [Hx Hxp]]]]]. exists en, x, xp. split; [exact Ee|]. split; [exact Hx|].
+    split; [apply Forall_digit_dig_; exact Hxp|].
+    unfold float_text, ftok_text, formC, fsign. rewrite Ei, Ee. destruct (f_frac t); reflexivity.
+  - unfold float_text, ftok_text, formA, fsign. rewrite Ei, He. destruct (f_frac t) as [|a fr].
+    + rewrite !app_nil_r. rewrite <- app_assoc. reflexivity.
+    + rewrite app_nil_r. reflexivity.
+Qed.
+
+Theorem float_fin_lexes : forall t sci, ftok_ok t sci ->
+  lexes_to (float_text (FFin t) sci) [mkTok TFloat (float_text (FFin t) sci)].
+Proof.
+  intros t sci H. pose proof H as [_ [Hf _]]. destruct (float_text_form t sci H) as [c [ip [Ei [Hc [Hi R]]]]]. destruct sci.
+  - destruct R as [en [x [xp [Ee [Hx [Hxp Et]]]]]]. rewrite Et. apply float_C_lexes; auto using fsign_ok.
+    + destruct (f_frac t) as [|a fr] eqn:Ef; [left; reflexivity|right; exists (a :: fr); split; [reflexivity|apply Forall_digit_dig_; exact Hf]].
+    + destruct en; [right; right|right; left]; reflexivity.
+  - rewrite R. apply float_A_lexes; auto using fsign_ok.
+    destruct (f_frac t) as [|a fr]; [constructor; [left; unfold digit; lia|constructor]|apply Forall_digit_dig_; exact Hf].
+Qed.
+
+(* +Inf / -Inf: the sign is lexed as an operator symbol, Inf as a float word; the parser glues them *)
+Theorem inf_lexes : forall neg : bool,
+  lexes_to (if neg then str_mInf else str_pInf) [mkTok TSymbol [if neg then 45 else 43]; mkTok TFloat str_Inf].
+Proof.
+  intros neg s t p d Hd Hcan V. set (r := if neg then 45 else 43).
+  assert (r = 43 \/ r = 45) as Hr by (unfold r; destruct neg; auto).
+  destruct (step_sign s t p r Hr V) as [s1 [E1 [V1 [P1 _]]]].
+  destruct (step_sign_plain s1 t r 73 V1 P1 Hr) as [s2 [E2 V2]];
+    try (unfold r; destruct neg; vm_compute; reflexivity).
+  destruct (run_plain [110; 102] s2 [73] _ 73) as [s3 [E3 V3]]; [repeat constructor|exact V2|].
+  destruct (step_delim s3 _ _ _ d (mkTok TFloat str_Inf) Hd ltac:(discriminate) ltac:(vm_compute; reflexivity) V3) as [s4 [E4 V4]].
+  exists s4. split.
+  - replace ((if neg then str_mInf else str_pInf) ++ [d]) with (r :: 73 :: [110; 102] ++ [d]) by (unfold r; destruct neg; reflexivity).
+    cbn [lex_all]. rewrite E1, E2. rewrite lex_all_app, E3. cbn [lex_all]. rewrite E4. reflexivity.
+  - rewrite <- app_assoc in V4. exact V4.
+Qed.
+
+Theorem nan_lexes : lexes_to str_NaN [mkTok TFloat str_NaN].
+Proof. apply word_lexes; try discriminate; vm_compute; reflexivity. Qed.
+
+Lemma float_text_head : forall t sci, ftok_ok t sci -> exists h rest, float_text (FFin t) sci = h :: rest /\ (h = 45 \/ digit h).
+Proof.
+  intros t sci H. destruct (float_text_form t sci H) as [c [ip [Ei [Hc [Hi R]]]]]. destruct sci.
+  - destruct R as [en [x [xp [Ee [Hx [Hxp Et]]]]]]. rewrite Et. unfold formC, fsign. destruct (f_neg t); cbn [app]; eauto.
+  - rewrite R. unfold formA, fsign. destruct (f_neg t); cbn [app]; eauto.
+Qed.
+
+Lemma mem_z_app : forall c a b, mem_z c (a ++ b) = mem_z c a || mem_z c b.
+Proof. intros c a. induction a as [|x a IH]; intros b; [reflexivity|]. simpl. rewrite IH. apply orb_assoc. Qed.
+
+Lemma mem_z_dig_ : forall c w, Forall dig_ w -> (c = 101 \/ c = 69) -> mem_z c w = false.
+Proof.
+  intros c w F Hc. induction F as [|x w Hx F IH]; [reflexivity|]. simpl. rewrite IH, orb_false_r.
+  apply Z.eqb_neq. destruct Hx as [Hx|Hx]; unfold digit in *; destruct Hc; lia.
+Qed.
+
+Lemma float_text_sci : forall t sci, ftok_ok t sci -> contains_e (float_text (FFin t) sci) = sci.
+Proof.
+  intros t sci H. pose proof H as [_ [Hf _]]. apply Forall_digit_dig_ in Hf.
+  destruct (float_text_form t sci H) as [c [ip [Ei [Hc [Hi R]]]]]. destruct sci.
+  - destruct R as [en [x [xp [Ee [Hx [Hxp Et]]]]]]. rewrite Et. unfold contains_e, formC.
+    rewrite !mem_z_app. cbn [mem_z]. rewrite !mem_z_app. cbn [mem_z]. change (101 =? 101) with true.
+    rewrite !orb_true_r. reflexivity.
+  - rewrite R. unfold contains_e, formA.
+    assert (forall k, k = 101 \/ k = 69 -> mem_z k (fsign t ++ c :: ip ++ 46 :: match f_frac t with [] => [48] | a :: l => a :: l end) = false) as Hk.
+    { intros k Hk. rewrite mem_z_app. cbn [mem_z]. rewrite mem_z_app. cbn [mem_z].
+      rewrite (mem_z_dig_ k ip Hi Hk).
+      assert (mem_z k (match f_frac t with [] => [48] | a :: l => a :: l end) = false) as E1.
+      { destruct (f_frac t); [destruct Hk; subst; reflexivity|apply mem_z_dig_; assumption]. }
+      rewrite E1.
+      assert (mem_z k (fsign t) = false) as E2 by (unfold fsign; destruct (f_neg t); destruct Hk; subst; reflexivity).
+      rewrite E2.
+      replace (c =? k) with false by (symmetry; apply Z.eqb_neq; unfold digit in Hc; destruct Hk; lia).
+      replace (46 =? k) with false by (destruct Hk; subst; reflexivity). reflexivity. }
+    rewrite (Hk 101), (Hk 69) by auto. reflexivity.
+Qed.
+
 (* ======== C: the token stream of a printed value ======== *)
 
 Section ValueInd.
@@ -501,11 +692,11 @@ Notation mq := mkQ (only parsing).
 
 Definition E (v : value) : Prop :=
   dat false v -> forall f acc top rest e i k, (vsize v <= f)%nat ->
-  pexpr true f acc top (mq (tk false v ++ rest) e i) k = k (to_sexp v) (mq rest e i).
+  pexpr true false f acc top (mq (tk false v ++ rest) e i) k = k (to_sexp v) (mq rest e i).
 
 Definition PL (t : value) : Prop :=
   dat true t -> forall h, dat false h -> E h -> forall f acc rest e i k, (vsize h + vsize t <= f)%nat ->
-  plist true f acc (mq (tk false h ++ tk true t ++ rest) e i) TRParen k = k (SPair (to_sexp h) (to_sexp t)) (mq rest e i).
+  plist true false f acc (mq (tk false h ++ tk true t ++ rest) e i) TRParen k = k (SPair (to_sexp h) (to_sexp t)) (mq rest e i).
 
 Lemma look_cons : forall b acc t l e i kend k, look b acc (mq (t :: l) e i) kend k = k (mq (t :: l) e i).
 Proof. reflexivity. Qed.
@@ -514,7 +705,7 @@ Lemma need0_cons : forall acc t l e i k, need acc 0 (mq (t :: l) e i) k = k (mq 
 Proof. reflexivity. Qed.
 
 Lemma pexpr_lsquare : forall f acc top l e i k,
-  pexpr true (S f) acc top (mkQ (mkTok TLSquare [] :: l) e i) k = parray true f acc (mkQ l e i) [] k.
+  pexpr true false (S f) acc top (mkQ (mkTok TLSquare [] :: l) e i) k = parray true false f acc (mkQ l e i) [] k.
 Proof. reflexivity. Qed.
 
 Lemma sym_not_sign : forall n, sym_ok n -> list_eqb n [45] || list_eqb n [43] = false.
@@ -562,10 +753,10 @@ Qed.
 Lemma PL_step : forall h t, dat false h -> E h ->
   forall f acc rest e i k, (vsize h + vsize t <= f)%nat ->
   forall tt trest, tk true t ++ rest = tt :: trest ->
-  plist true f acc (mq (tk false h ++ tk true t ++ rest) e i) TRParen k =
-  (let rest' q := plist true (pred f) acc q TRParen (fun tl q' => k (SPair (to_sexp h) tl) q') in
+  plist true false f acc (mq (tk false h ++ tk true t ++ rest) e i) TRParen k =
+  (let rest' q := plist true false (pred f) acc q TRParen (fun tl q' => k (SPair (to_sexp h) tl) q') in
    if kind_is tt TBackslash then
-     pexpr true (pred f) acc false (mq trest e i) (fun tail q4 =>
+     pexpr true false (pred f) acc false (mq trest e i) (fun tail q4 =>
        look true acc q4 (fun _ => OErr acc) (fun q5 =>
          if kind_is (tok_at q5 0) TRParen then k (SPair (to_sexp h) tail) (q_tail q5) else OErr acc))
    else rest' (mq (tt :: trest) e i)).
@@ -626,7 +817,7 @@ Proof.
     assert (forall f acc rest e i k arr,
       (fix all (l : list value) : Prop := match l with [] => True | x :: r => dat false x /\ all r end) l ->
       (S ((fix sum (l : list value) : nat := match l with [] => O | x :: r => (vsize x + sum r)%nat end) l) <= f)%nat ->
-      parray true f acc (mq ((fix el (l : list value) : list token := match l with [] => [] | x :: r => tk false x ++ el r end) l
+      parray true false f acc (mq ((fix el (l : list value) : list token := match l with [] => [] | x :: r => tk false x ++ el r end) l
                               ++ mkTok TRSquare [] :: rest) e i) arr k =
       k (SArr false (rev arr ++ map to_sexp l)) (mq rest e i)) as Harr.
     { induction F as [|x r Hx F IH]; intros f acc rest e i k arr D Hf.
@@ -658,7 +849,7 @@ Lemma to_sexp_not_end : forall is_print v, dat is_print false v -> is_send (to_s
 Proof. intros ip v D. destruct v; try reflexivity; destruct D. Qed.
 
 Theorem read_print_data : forall is_print v fuel, dat is_print false v -> (vsize v + 3 <= fuel)%nat ->
-  observe (parse_whole true fuel (print is_print v)) = (StDone, [to_sexp v]).
+  observe (parse_whole true false fuel (print is_print v)) = (StDone, [to_sexp v]).
 Proof.
   intros ip v fuel D Hf.
   destruct (data_lexes ip v D init_lstate [] 0 10 delim_10 can_start_0) as [s' [El V]].
@@ -668,10 +859,10 @@ Proof.
   destruct V as [V1 V2 V3 V4 V5]. rewrite V3. unfold in_string_or_rune. rewrite V1.
   change (dtok 10) with (@nil token). rewrite app_nil_r. cbn [app].
   destruct fuel as [|[|[|f3]]]; try lia. cbn [resume].
-  change (ptop true (S (S (S f3))) [] (mkQ (tk false v) false false))
-    with (pexpr true (S (S f3)) [] true (mkQ (tk false v) false false)
+  change (ptop true false (S (S (S f3))) [] (mkQ (tk false v) false false))
+    with (pexpr true false (S (S f3)) [] true (mkQ (tk false v) false false)
             (fun e q' => if is_send e then (if q_instr q' then OMoreTop [] (S (S (S f3))) else ODone [] (S (S (S f3))))
-                         else ptop true (S (S f3)) ([] ++ [e]) q')).
+                         else ptop true false (S (S f3)) ([] ++ [e]) q')).
   rewrite <- (app_nil_r (tk false v)).
   rewrite (proj1 (parse_claim ip v) D (S (S f3)) [] true [] false false) by lia.
   rewrite (to_sexp_not_end ip v D). reflexivity.
@@ -845,8 +1036,8 @@ End Denote.
 
 (* strconv.Quote writes \b for U+0008; EscapeChar does not know it: the printed string is rejected *)
 Theorem quote_escape_refuted : forall is_print, is_print 8 = false ->
-  observe (parse_whole true 50 (print is_print (VStr [Rune 8]))) = (StErr, []) /\
-  observe (parse_whole true 50 (print is_print (VChar 8))) = (StErr, []).
+  observe (parse_whole true false 50 (print is_print (VStr [Rune 8]))) = (StErr, []) /\
+  observe (parse_whole true false 50 (print is_print (VChar 8))) = (StErr, []).
 Proof.
   intros ip H. unfold print, pr, quote_str, quote_rune, flat_map, quote_item, escaped_rune. rewrite H.
   split; vm_compute; reflexivity.
@@ -854,9 +1045,9 @@ Qed.
 
 (* a non-printable rune above U+007F is written \u0085 / \U000e0001, an invalid byte \xNN *)
 Theorem quote_escape_refuted_u : forall is_print, is_print 133 = false -> is_print 917505 = false ->
-  observe (parse_whole true 50 (print is_print (VStr [Rune 133]))) = (StErr, []) /\
-  observe (parse_whole true 50 (print is_print (VStr [Rune 917505]))) = (StErr, []) /\
-  observe (parse_whole true 50 (print is_print (VStr [BadByte 255]))) = (StErr, []).
+  observe (parse_whole true false 50 (print is_print (VStr [Rune 133]))) = (StErr, []) /\
+  observe (parse_whole true false 50 (print is_print (VStr [Rune 917505]))) = (StErr, []) /\
+  observe (parse_whole true false 50 (print is_print (VStr [BadByte 255]))) = (StErr, []).
 Proof.
   intros ip H1 H2. unfold print, pr, quote_str, quote_rune, flat_map, quote_item, escaped_rune. rewrite H1, H2.
   repeat split; vm_compute; reflexivity.
